@@ -99,6 +99,7 @@ struct GOpts {
   bool empty_values = true;
   bool long_fields = true;
   bool indent_entries = true;
+  bool header_trail = true;  // trailing comments on header lines
   int max_lines = 40;
   int fixed_di = -1, fixed_ci = -1;
   std::vector<int> allowed_di;  // empty = all
@@ -230,7 +231,8 @@ inline GFile gen_file(Src &s, const GOpts &o) {
     auto line_span = s.span();
     if (!(nlines < o.max_lines && s.chance(88))) break;
     // choose kind; order: simplest first
-    size_t k = s.weighted({40, 8, o.comments ? 14 : 0, o.headers ? 12 : 0, (o.blankonly && f.cls != DC_NONE && !prev_entryish) ? 5 : 0,
+    bool prev_comment = !f.lines.empty() && f.lines.back().kind == L_COMMENT;
+    size_t k = s.weighted({40, 8, o.comments ? (prev_comment ? 45 : 14) : 0, o.headers ? 12 : 0, (o.blankonly && f.cls != DC_NONE && !prev_entryish) ? 5 : 0,
                            (o.bare && f.cls != DC_NONE && !prev_entryish) ? 6 : 0});
     if (k == 0) {
       // ---------------- ENTRY
@@ -374,7 +376,7 @@ inline GFile gen_file(Src &s, const GOpts &o) {
             c.text += tb;
             stored += tb;
           }
-          if (f.cls == DC_NONBLANK && o.trail && s.chance(20)) {
+          if (f.cls == DC_NONBLANK && o.trail && s.chance(30)) {
             char cc = C[s.below((uint32_t)C.size())];
             std::string gap = gen_blanks(s, 0, 2);
             std::string tt = gen_text(s, a_ttext, gen_len(s, 0, false));
@@ -425,7 +427,7 @@ inline GFile gen_file(Src &s, const GOpts &o) {
       std::string ind = s.chance(15) ? gen_blanks(s, 1, 2) : "";
       l.indented = !ind.empty();
       l.text = ind + "[" + name + "]" + (s.chance(15) ? gen_blanks(s, 1, 2) : "");
-      if (o.trail && s.chance(8)) {
+      if (o.trail && o.header_trail && s.chance(8)) {
         char c = C[s.below((uint32_t)C.size())];
         std::string tt = gen_text(s, a_ttext, gen_len(s, 0, false));
         l.text += std::string(" ") + c + tt;
